@@ -39,6 +39,7 @@ def _gen_scripted(ch):
         else:
             ops.append(['pop'])
     return dict(scenario='tcpcl_scripted', role=ch.choice('role', ('passive', 'active')), cfg=cfg, chunk_size=10240,
+                net=dict(tcp_capacity=ch.choice('cap', (1 << 30, 1 << 30, 200, 1000))),
                 peer_mru=ch.choice('pmru', (1 << 20, 50, 300)), ops=ops, drain=ch.choice('drain', ('ack', 'refuse', 'mixed')),
                 terminate=ch.choice('sterm', (None, 'peer', 'user')))
 
@@ -255,14 +256,20 @@ def _drive_scripted(run, plan, har, rfc9174):
     if state['partial'] is not None:
         finish_inbound()
     rounds = 0
-    while not har.victim_closed() and not har.wld.capped and not har.hang and rounds < 5000:
-        rounds += 1
-        if state['answered'] >= len(segments()):
+    for _pass in range(3000):
+        octets = har.from_v.total
+        while not har.victim_closed() and not har.wld.capped and not har.hang and rounds < 5000:
+            rounds += 1
+            if state['answered'] >= len(segments()):
+                break
+            how = plan['drain']
+            if how == 'mixed':
+                how = 'refuse' if rounds % 2 else 'ack'
+            answer('ack1' if how == 'ack' else 'refuse', 2, 1)
+        # with a bounded socket buffer the agent produces more once the peer has read
+        har.settle()
+        if state['answered'] >= len(segments()) and har.from_v.total == octets:
             break
-        how = plan['drain']
-        if how == 'mixed':
-            how = 'refuse' if rounds % 2 else 'ack'
-        answer('ack1' if how == 'ack' else 'refuse', 2, 1)
     har.user_pop_all()
     har.settle()
     run.final_idle = None
